@@ -83,6 +83,16 @@ def h5_async_match():
     return h
 
 
+def h5_sync_resp():
+    """blocking reply handling (net.c KSI_RequestHandle_getAggregationResponse / getExtendResponse): the C06 harness, run under C07 as well because
+    'error reply => no signature' of the blocking signing path rests on it"""
+    spec = importlib.util.spec_from_file_location("c06plan", os.path.join(os.path.dirname(os.path.abspath(__file__)), "..", "C06", "mkplan.py"))
+    m = importlib.util.module_from_spec(spec); spec.loader.exec_module(m)
+    h = m.h5_sync()
+    h["name"] = "h5_sync_resp"; h["src"] = "../C06/h5_sync.c"
+    return h
+
+
 def plan():
     return {
         "property": "C07",
@@ -100,14 +110,16 @@ def plan():
                           "verifyWithPolicy(caller's hash) each returned OK once, in this order, on the same objects; any failure returns that status, reaches no later gate, leaves *signature "
                           "untouched and releases request, handle, response, builder and half-built signature exactly once; nothing is sent for an untrusted hash or a level > 0xff. (H3) "
                           "KSI_AggregationResp_verifyWithRequest == (request present and both ids present and 64-bit equal). (H4) openFromAggregationResp: non-zero status -> mapped "
-                          "KSI_SERVICE_* error and no builder; status 0 -> signature element made of exactly the non-bookkeeping children in order. (H5) asynchronous path: a handle receives "
+                          "KSI_SERVICE_* error and no builder; status 0 -> signature element made of exactly the non-bookkeeping children in order. (H5) reply handling: the blocking getAggregationResponse / getExtendResponse "
+                          "return a response object only from a MAC-verified PDU without error payload - an error payload yields no response object and (non-zero status) an error even when "
+                          "a well-formed response payload is present; asynchronous path: a handle receives "
                           "a response only if MAC-verified, id/slot/state match, verifyWithRequest OK and status 0; createSignature verifies against the handle's own request hash and level.",
             "level_note": "Compositional (gate-order) evidence: callees are stubs with symbolic verdicts, so 'a reply for another hash / with inconsistent chains is refused' reduces to the final "
                           "KSI_Signature_verifyWithPolicy(sign, requested hash) gate being mandatory (shown) plus the correctness of internal verification (C01/C02, not shown here). With a "
                           "caller-supplied KSI_VerificationContext the documented behaviour is that the caller's context (and its document hash) is used. KSI_TLV_clone is modelled; child tag "
                           "sequences in H4 are concrete. Transports, HA client and block signer are outside.",
         },
-        "harnesses": [h1_signreq(), h2_gate(), h3_vwr(), h4_open(), h5_async_match(), h5_async_sig()],
+        "harnesses": [h1_signreq(), h2_gate(), h3_vwr(), h4_open(), h5_async_match(), h5_async_sig(), h5_sync_resp()],
     }
 
 
